@@ -401,6 +401,16 @@ def repo_classes():
             c.parents = [p for p in c.parents if p != 0]
             return c
 
+        # about half of the refs are "loose" (GitRepo.iter_refs yields None for them, the caller has to ask
+        # get_ref_commit): which ones is a function of the name
+        def iter_refs(self, *prefixes):
+            import zlib
+            for ref_name, hexsha in super().iter_refs(*prefixes):
+                yield ref_name, (None if zlib.crc32(ref_name.encode()) % 2 == 0 else hexsha)
+
+        def get_ref_commit(self, ref_name):
+            return self.refs[ref_name].head_commit
+
     _CLASSES.update(StdTestRepo=StdTestRepo, Mock=Mock)
     return _CLASSES
 
